@@ -235,6 +235,10 @@ def check(ctx, replay=None):
         # what the loader does and reports depends on the kernel's answers only (Loader.tla has no file system)
         if h["priv"] and i % 3 == 1:
             script["jail"] = os.path.dirname(ctx.path("jails", "j%d" % i, "x"))
+        # every fourth privileged history runs under an emulation of a kernel before 5.7 (seccomp(2) answers EINVAL to flag bits from 1 << 4 on):
+        # the library hands the kernel the caller's flags, so nothing it reports depends on that
+        if h["priv"] and i % 4 == 2 and not script.get("jail"):
+            script["old_kernel"] = True
         obs, err = lf.run_child(d + "/loadchild", script, h["priv"])
         if obs is None and (err.startswith("rc=") or err == "timeout") and any(st["op"] == "supported" for st in script["steps"]):
             # find out where it died: replay the prefix without Supported()
@@ -251,6 +255,7 @@ def check(ctx, replay=None):
     njail = 0
     for h, script, obs, err in lf.run_many(one, list(enumerate(picked))):
         njail += 1 if script.get("jail") else 0
+        ctx.cov["histories_replayed_under_an_emulated_older_kernel"] = ctx.cov.get("histories_replayed_under_an_emulated_older_kernel", 0) + (1 if script.get("old_kernel") else 0)
         if obs is None or (obs != "died-at-supported" and len(obs) != len(h["hist"])):
             failed_children += 1
             ctx.skip("child failed: %s" % (err or "short output"))
